@@ -498,3 +498,52 @@ Definition diag_cd (c : carve) : list (Z * Z * Z * Z) :=
         end) [1; 16; 24; 100; 512; 4000]
   | _, _, _ => []
   end.
+
+(* ------------------------------------------------------------------ *)
+(** * publication of the running thread versus the save of its context
+
+    Events of one non-callback function body, in source order, as extracted by the translator
+    (tools/translate_ctx.py : extract_publish). *)
+Inductive pev :=
+| PPubSelf                 (* the running thread is handed to a run queue / sleep queue / wake-up field *)
+| PPubOther                (* some other thread is published *)
+| PSwitchCall (f : Z)      (* switch with callback f; saves the running thread's context *)
+| PSwitchCallSched (f : Z) (* switch with callback; saves the scheduler's context *)
+| PSwitchPlainThread       (* switch without callback that saves a thread's context *)
+| PSwitchPlainSched        (* switch without callback that saves the scheduler's context *)
+| PSetCall (f : Z)         (* switch that saves nothing (the running thread has finished) *)
+| PSetPlain.
+
+(** what the running thread's own code does, step by step: a switch with callback is
+    save ; (callback, on the next stack: may publish the saved thread) ; ... ; resumed by whoever took it *)
+Inductive micro := MSave | MPublish | MResume.
+
+Definition expand (e : pev) : list micro :=
+  match e with
+  | PPubSelf => [MPublish]
+  | PSwitchCall _ => [MSave; MPublish; MResume]
+  | PSwitchPlainThread => [MSave; MResume]
+  | _ => []
+  end.
+
+Record pst := mkPst { p_saved : bool; p_visible : bool }.
+
+Definition mstep (m : micro) (s : pst) : pst :=
+  match m with
+  | MSave => mkPst true (p_visible s)
+  | MPublish => mkPst (p_saved s) true
+  | MResume => mkPst false false      (* taken out of the queue and running again *)
+  end.
+
+(** the thread can be taken by another worker only when it is visible; that is safe only if its context is saved *)
+Definition pst_safe (s : pst) : bool := implb (p_visible s) (p_saved s).
+
+Fixpoint safe_run (ms : list micro) (s : pst) : bool :=
+  pst_safe s && match ms with [] => true | m :: r => safe_run r (mstep m s) end.
+
+(** the checker: the body never publishes the running thread itself and never suspends a thread
+    without a callback (such a thread could only be resumed by somebody who learnt of it before
+    its context was saved) *)
+Definition pub_ok (e : pev) : bool :=
+  match e with PPubSelf => false | PSwitchPlainThread => false | _ => true end.
+Definition pub_check (evs : list pev) : bool := forallb pub_ok evs.
